@@ -217,7 +217,10 @@ func (h *nativeProxyHandler) deleteSym(target *Object, prop *Symbol) (bool, bool
 
 func (h *nativeProxyHandler) ownKeys(target *Object) (*Object, bool) {
 	if trap := h.handler.OwnKeys; trap != nil {
-		return trap(target), true
+		if keys := trap(target); keys != nil {
+			return keys, true
+		}
+		panic(target.runtime.NewTypeError("'ownKeys' on proxy: trap returned a non-object (nil)"))
 	}
 	return nil, false
 }
@@ -231,7 +234,10 @@ func (h *nativeProxyHandler) apply(target *Object, this Value, args []Value) (Va
 
 func (h *nativeProxyHandler) construct(target *Object, args []Value, newTarget *Object) (Value, bool) {
 	if trap := h.handler.Construct; trap != nil {
-		return trap(target, args, newTarget), true
+		if obj := trap(target, args, newTarget); obj != nil {
+			return obj, true
+		}
+		panic(target.runtime.NewTypeError("proxy [[Construct]] must return an object"))
 	}
 	return nil, false
 }
